@@ -305,7 +305,8 @@ def additional(idx, spec, data):
     wt_drift = pd.DataFrame({"a": [0.5 + 3e-6 * i for i in range(n)], "b": [0.4 - 3e-6 * i for i in range(n)]}, index=idx)
     ad = {"stat": stat, "signal": signal, "wt": wt, "stat_sparse": stat_sparse, "wt_drift": wt_drift}
     if spec.get("spread") is not None:
-        ad["bidoffer"] = pd.DataFrame(float(spec["spread"]), index=idx, columns=cols)
+        # (spread_cols: a bid/offer table that quotes only some of the tickers - the others trade at mid)
+        ad["bidoffer"] = pd.DataFrame(float(spec["spread"]), index=idx, columns=list(spec.get("spread_cols") or cols))
     return ad
 
 
@@ -410,7 +411,9 @@ def build(spec):
         cr = bt.Strategy("cr", [A.RunWeekly(), A.WeighSpecified(mom=0.5), A.Rebalance()], [m2])
         s = bt.Strategy("r", [A.RunMonthly(), A.WeighSpecified(eq=0.5, cr=0.25), A.Rebalance()], [eq, cr])
     elif tree == "fi_hedge":
-        kids = [bt.FixedIncomeSecurity("a"), bt.CouponPayingSecurity("b"), bt.HedgeSecurity("d", multiplier=spec.get("mult_d", 1))]
+        kids = [bt.FixedIncomeSecurity("a"), bt.CouponPayingSecurity("b"), bt.HedgeSecurity("d", multiplier=spec.get("mult_d", 1), lazy_add=bool(spec.get("lazy_hedge")))]
+        if spec.get("idle_child"):
+            kids.append(bt.FixedIncomeSecurity("c"))  # declared, never targeted; not yet issued: no risk number at first
         w = spec.get("fi_weights", {"a": 0.5, "b": 0.5})
         algos = gate(st.get("gate", "daily"), idx) + [A.SetNotional("notional"), A.WeighSpecified(**w), A.Rebalance(), A.UpdateRisk("M1"), A.SelectThese(["d"]), A.HedgeRisks(["M1"]), A.UpdateRisk("M1")]
         s = bt.FixedIncomeStrategy("r", algos, children=kids)
@@ -422,8 +425,14 @@ def build(spec):
         ad["coupons"] = pd.DataFrame({"b": [0.125 * ((i * 3) % 5) for i in range(n)]}, index=idx)
         ad["cost_long"] = pd.DataFrame({"b": [0.0625 * (i % 3) for i in range(n)]}, index=idx)
         ad["cost_short"] = pd.DataFrame({"b": [0.03125 * ((i + 1) % 4) for i in range(n)]}, index=idx)
+        if spec.get("plain_cost_index"):
+            # the same dates, but an index built from a plain list (no name, no freq): equal, not identical
+            for k in ("cost_long", "cost_short"):
+                ad[k] = pd.DataFrame(ad[k].values, index=pd.DatetimeIndex(list(idx)), columns=ad[k].columns)
         ad["notional"] = pd.Series([64.0 + 16.0 * (i % 4) for i in range(n)], index=idx)
         ad["unit_risk"] = {"M1": pd.DataFrame({"a": [1.0 + 0.25 * (i % 3) for i in range(n)], "b": [0.5 + 0.125 * (i % 4) for i in range(n)], "d": [1.0 + 0.5 * ((i * 2) % 3) for i in range(n)]}, index=idx)}
+        if spec.get("idle_child"):
+            ad["unit_risk"]["M1"]["c"] = [float("nan") if i < n // 2 else 2.0 for i in range(n)]
     if spec.get("perturb"):
         data, ad = perturb(data, ad, spec["perturb"])
     fee = spec.get("fee")
